@@ -44,7 +44,7 @@ def cases(tier, rng, dist):
     for _ in range(N // 2):
         reps, n = rng.randint(1, 8), rng.randint(2, 3)
         t = gen_matrix(rng, reps + 1, n, rng.randint(0, 3))
-        yield {"f": "sim", "table": [[str(v) for v in r] for r in t], "comb": rng.choice(COMBS[:5]),
+        yield {"f": "sim", "table": [[str(v) for v in r] for r in t], "comb": rng.choice(COMBS[:5] + ["logit", "logit"]),
                "pynum": rng.random() < 0.5, "in_place": rng.random() < 0.5}
     # malformed shapes
     for spec in ("fisher", "tippett"):
